@@ -41,7 +41,7 @@ func (c16) Components() map[string][]string {
 	}
 }
 func (c16) ProbeNames() []string {
-	return []string{"src-hostdir", "src-memfs-shortreads", "src-fat32", "src-ext4", "src-iso-rr", "src-squashfs", "dst-fat12", "dst-fat16", "dst-fat32", "dst-ext4", "copy-accepted", "compare-nil-on-faithful", "mutation-detected", "device-flip", "excluded-name"}
+	return []string{"src-hostdir", "src-memfs-shortreads", "src-fat32", "src-ext4", "src-iso-rr", "src-squashfs", "dst-fat12", "dst-fat16", "dst-fat32", "dst-ext4", "copy-accepted", "compare-nil-on-faithful", "mutation-detected", "device-flip", "excluded-name", "streamed-over-64MiB"}
 }
 func (c16) Budget(tier string) (int, int, int) {
 	if tier == "thorough" {
@@ -63,8 +63,14 @@ func (c16) Gen(r *core.Rng, tier string, idx int) *core.Trace {
 	t.Cfg["depth"] = r.Range(0, 3)
 	t.Cfg["excluded"] = int64(r.Intn(2))
 	t.Cfg["bigfile"] = 0
-	if tier == "thorough" && r.Chance(3) {
+	if (tier == "thorough" && r.Chance(3)) || (tier == "quick" && r.Chance(1)) {
+		// one file above the 64 MiB threshold, where CopyFileSystem streams instead of reading the file whole;
+		// needs the zero-generating in-memory source and a destination that can hold it
 		t.Cfg["bigfile"] = 1
+		t.CfgS["src"] = "memfs"
+		t.CfgS["dst"] = core.PickOf(r, "fat32", "ext4")
+		t.Cfg["readmode"] = core.PickOf[int64](r, 3, 3, 0, 4) // (1-byte and odd-piece reads of 64 MiB would take minutes)
+		t.Cfg["nfiles"] = r.Range(1, 3)
 	}
 	return t
 }
@@ -491,16 +497,22 @@ func c16Tree(t *core.Trace, dst string) []imgEntry {
 	return tree
 }
 
-func c16OpenDest(kind string, seed uint64) (filesystem.FileSystem, *simdisk.Disk, func(*simdisk.Disk) (filesystem.FileSystem, error), error) {
+func c16OpenDest(kind string, seed uint64, big bool) (filesystem.FileSystem, *simdisk.Disk, func(*simdisk.Disk) (filesystem.FileSystem, error), error) {
 	switch kind {
 	case "ext4":
 		size := int64(40 << 20)
+		if big {
+			size = 160 << 20
+		}
 		d := simdisk.New(size)
 		fs, err := ext4.Create(d, size, 0, 512, &ext4.Params{})
 		return fs, d, func(x *simdisk.Disk) (filesystem.FileSystem, error) { return ext4.Read(x, size, 0, 512) }, err
 	default:
 		ft := map[string]int{"fat12": 12, "fat16": 16, "fat32": 32}[kind]
 		size := map[int]int64{12: 8 << 20, 16: 16 << 20, 32: 16 << 20}[ft]
+		if big && ft == 32 {
+			size = 160 << 20
+		}
 		d := simdisk.New(size)
 		fs, err := fatCreate(d, ft, size, 0, 512, "DST", false)
 		return fs, d, func(x *simdisk.Disk) (filesystem.FileSystem, error) { return fatRead(x, ft, size, 0, 512) }, err
@@ -558,7 +570,11 @@ func (p c16) Exec(t *core.Trace) *core.Result {
 		}
 		src = os.DirFS(dir)
 	case "memfs":
-		memSrc = newMemFS(tree, int(t.I("readmode")%5), uint64(t.I("tag")), res)
+		rm := int(t.I("readmode") % 5)
+		if t.I("bigfile") == 1 && (rm == 1 || rm == 2) {
+			rm = 3
+		}
+		memSrc = newMemFS(tree, rm, uint64(t.I("tag")), res)
 		if t.I("bigfile") == 1 {
 			n := memSrc.add(imgEntry{Path: "HUGE.BIN"})
 			n.zeros = 64<<20 + 4097
@@ -586,7 +602,7 @@ func (p c16) Exec(t *core.Trace) *core.Result {
 	res.Probe("src-" + map[string]string{"memfs": "memfs-shortreads"}[srcKind] + map[bool]string{true: "", false: srcKind}[srcKind == "memfs"])
 	res.Probe("dst-" + dstKind)
 	// ---- destination
-	dst, dd, reopen, err := c16OpenDest(dstKind, t.Seed)
+	dst, dd, reopen, err := c16OpenDest(dstKind, t.Seed, t.I("bigfile") == 1 && srcKind == "memfs")
 	if err != nil {
 		res.Evals = 1
 		res.Probe("build-failed")
